@@ -359,7 +359,7 @@ class Ctx:
                    '(the result aliases a cache or state is left over from the first call)', None, point='history/edit-result-then-call-again')
         return r2
 
-    def attach(self, owner, name, post=None, pre=None, point=None, immutable_args=False):
+    def attach(self, owner, name, post=None, pre=None, point=None, immutable_args=False, normalize=False):
         """wrap `owner.name` (module function or class method) and rebind every `numqi*` module attribute that
         *is* the original. `pre(call)` may return a snapshot (stored in call.snap); `post(call)` is evaluated after the
         call (also when it raised: call.exc). Both run in quiet mode. Returns the wrapper."""
@@ -376,12 +376,44 @@ class Ctx:
             raise RuntimeError(f'{name} already attached')
         point = point or f'{getattr(owner, "__name__", owner)}.{name}'
         ctx = self
+        sig = None
+        if normalize:
+            # monitors see the call with every argument bound by NAME and listed in signature order (defaults applied), so a
+            # keyword call, a positional call and a call relying on defaults all look the same to the contract. The function
+            # itself is always invoked with the caller's original args/kwargs.
+            import inspect
+            try:
+                sig = inspect.signature(func)
+            except (TypeError, ValueError):
+                sig = None
+
+        def normalized(args, kwargs):
+            import inspect
+            ba = sig.bind(*args, **kwargs)
+            ba.apply_defaults()
+            nargs, nkw = [], {}
+            for pname, prm in sig.parameters.items():
+                v = ba.arguments[pname]
+                if prm.kind in (inspect.Parameter.POSITIONAL_ONLY, inspect.Parameter.POSITIONAL_OR_KEYWORD):
+                    nargs.append(v)
+                elif prm.kind == inspect.Parameter.VAR_POSITIONAL:
+                    nargs.extend(v)
+                elif prm.kind == inspect.Parameter.KEYWORD_ONLY:
+                    nkw[pname] = v
+                else:
+                    nkw.update(v)
+            return tuple(nargs), nkw
 
         @functools.wraps(func)
         def wrapper(*args, **kwargs):
             if ctx._quiet:
                 return func(*args, **kwargs)
             call = Call(func, point, args, kwargs)
+            if sig is not None:
+                try:
+                    call.args, call.kwargs = normalized(args, kwargs)
+                except TypeError:
+                    pass  # the call is malformed: the function itself will raise
             ctx.hit(point)
             arg_digests = None
             if immutable_args and (immutable_args is True or ctx.hits[point] % int(immutable_args) == 0):  # int n: sample every n-th call
